@@ -524,12 +524,13 @@ def run_neighbours(spec, rec, lib):
             if not o.accepted:
                 rec.violation(boundary.mechanism("roundtrip", "verify_signable[loaded-among-neighbours]", "accept", o), "loaded document no longer verifies", case)
         listing_after = set(os.listdir(d))
+        # what happens to the neighbours is not part of the statement (a version that keeps companion files may tidy them up):
+        # observed and tallied, never judged
         if listing_after != listing_before:
-            rec.violation("file-name/write_metadata_to_file/directory-listing-changed/among-neighbours",
-                          "directory gained %r, lost %r" % (sorted(listing_after - listing_before), sorted(listing_before - listing_after)), case)
+            rec.count("hint_directory_listing_changed_among_neighbours")
         touched = [nb for nb, content in nbs.items() if nb in listing_after and open(os.path.join(d, nb), "rb").read() != content]
         if touched:
-            rec.violation("file-bytes/write_metadata_to_file/neighbour-files-modified", "files other than the named one were rewritten: %s" % touched[:5], case)
+            rec.count("hint_neighbour_files_rewritten")
         if i < 1:
             rec.sample({"neighbours": sorted(nbs)[:12], "named": name})
 
